@@ -13,51 +13,74 @@ def trieAfter (h : List SubOp) : Trie := h.foldl Trie.apply Trie.empty
 
 theorem countAt_subscribe (p q : List UInt8) (t : Trie) :
     (t.subscribe p).countAt q = t.countAt q + (if p = q then 1 else 0) := by
-  sorry
+  exact Rzmq.countAt_subscribe p q t
 
 theorem countAt_unsubscribe (p q : List UInt8) (t : Trie) :
     (t.unsubscribe p).1.countAt q = t.countAt q - (if p = q then 1 else 0) := by
-  sorry
+  exact Rzmq.countAt_unsubscribe p q t
 
 /-- `unsubscribe` returns true exactly when the last subscription of that topic was removed -/
 theorem unsubscribe_result (p : List UInt8) (t : Trie) :
     (t.unsubscribe p).2 = decide (t.countAt p = 1) := by
-  sorry
+  exact Rzmq.unsubscribe_result p t
 
 /-- the matcher: some subscription stored in the trie is a byte-prefix of the message topic -/
 theorem matches_iff (msg : List UInt8) (t : Trie) :
     t.matches msg = true ↔ ∃ p, p <+: msg ∧ 0 < t.countAt p := by
-  sorry
+  exact Rzmq.matches_iff msg t
 
 /-- Refinement: after ANY history of subscribe/unsubscribe calls over arbitrary byte strings, the count stored
 at a topic is its multiplicity in the abstract multiset (N subscribes need N unsubscribes; unsubscribing an
 absent topic is a no-op). -/
 theorem trie_refines_multiset (h : List SubOp) (p : List UInt8) :
     (trieAfter h).countAt p = absCount p h := by
-  sorry
+  unfold trieAfter absCount
+  rw [foldl_apply_countAt, countAt_empty]
 
 /-- A message is delivered iff some *currently active* subscription is a byte-prefix of its first frame. -/
 theorem sub_delivers_iff (h : List SubOp) (msg : List UInt8) :
     (trieAfter h).matches msg = true ↔ ∃ p, p <+: msg ∧ 0 < absCount p h := by
-  sorry
+  rw [matches_iff]
+  constructor
+  · rintro ⟨p, hp, hc⟩
+    exact ⟨p, hp, by rwa [trie_refines_multiset] at hc⟩
+  · rintro ⟨p, hp, hc⟩
+    exact ⟨p, hp, by rwa [trie_refines_multiset]⟩
 
 /-- the empty subscription matches everything -/
 theorem empty_subscription_matches_all (h : List SubOp) (hp : 0 < absCount [] h) (msg : List UInt8) :
     (trieAfter h).matches msg = true := by
-  sorry
+  rw [sub_delivers_iff]
+  exact ⟨[], List.nil_prefix, hp⟩
 
 /-- unsubscribing something that is not subscribed changes nothing observable -/
 theorem unsubscribe_absent_noop (h : List SubOp) (p : List UInt8) (hp : absCount p h = 0) (msg : List UInt8) :
     (trieAfter (h ++ [.unsub p])).matches msg = (trieAfter h).matches msg := by
-  sorry
+  rw [Bool.eq_iff_iff, sub_delivers_iff, sub_delivers_iff]
+  have key : ∀ q, absCount q (h ++ [.unsub p]) = absCount q h := by
+    intro q
+    rw [← trie_refines_multiset, ← trie_refines_multiset]
+    unfold trieAfter
+    rw [List.foldl_append, List.foldl_cons, List.foldl_nil]
+    simp only [Trie.apply]
+    rw [countAt_unsubscribe]
+    split
+    next hpq =>
+      subst hpq
+      have : (List.foldl Trie.apply Trie.empty h).countAt p = 0 := by
+        rw [← hp, ← trie_refines_multiset]; rfl
+      omega
+    · rfl
+  simp only [key]
 
 /-- `get_all_topics` lists exactly the active topics, each once -/
 theorem topics_iff (h : List SubOp) (p : List UInt8) :
     p ∈ (trieAfter h).topics ↔ 0 < absCount p h := by
-  sorry
+  have hwf : (trieAfter h).wf = true := wf_foldl h _ wf_empty
+  rw [mem_topics_iff p _ hwf, trie_refines_multiset]
 
 theorem topics_nodup (h : List SubOp) : (trieAfter h).topics.Nodup := by
-  sorry
+  exact topics_nodup_of_wf _ (wf_foldl h _ wf_empty)
 
 -- non-vacuity: the abstract spec on a concrete history
 example : absCount [1, 2] [.sub [1, 2], .sub [1, 2], .unsub [1, 2], .unsub [9]] = 1 := by decide
